@@ -1,0 +1,45 @@
+//go:build verif
+
+package conduit
+
+import (
+	"context"
+	"net"
+
+	"github.com/conduitio/conduit/pkg/foundation/log"
+	"github.com/conduitio/conduit/pkg/orchestrator"
+	"github.com/conduitio/conduit/pkg/provisioning"
+	"gopkg.in/tomb.v2"
+)
+
+// VerifServeGRPCAPI runs the REAL Runtime.serveGRPCAPI — the construction site of the
+// pipeline API and of its live-apply gate — on a Runtime that carries only what that method
+// reads: the given Config, orchestrator and provisioning service. It returns the address the
+// gRPC API listens on and a func that shuts it down. For the verification harness (h_ctl,
+// component apigate); nothing here is used by production code.
+func VerifServeGRPCAPI(
+	ctx context.Context,
+	cfg Config,
+	orch *orchestrator.Orchestrator,
+	prov *provisioning.Service,
+	logger log.CtxLogger,
+) (net.Addr, func(), error) {
+	r := &Runtime{
+		Config:                  cfg,
+		Orchestrator:            orch,
+		ProvisionService:        prov,
+		logger:                  logger,
+		metricsGrpcStatsHandler: configureMetrics(),
+	}
+	t, tctx := tomb.WithContext(ctx)
+	addr, err := r.serveGRPCAPI(tctx, t)
+	if err != nil {
+		t.Kill(err)
+		return nil, func() {}, err
+	}
+	stop := func() {
+		t.Kill(nil)
+		_ = t.Wait()
+	}
+	return addr, stop, nil
+}
